@@ -7,6 +7,7 @@ package sse
 
 import (
 	"sync"
+	"sync/atomic"
 	"encoding/json"
 	"fmt"
 	"math"
@@ -184,3 +185,39 @@ func verifTimerResets() []int64 { return nil }
 
 // verifLastNow: the nanosecond value most recently returned by time.Now/Since (executor only).
 func verifLastNow() int64 { return 0 }
+
+// ---- goroutines ----
+// Under the executor verifGo spawns an interpreted thread and verifRunThreads
+// runs the scheduler (every interleaving of visible operations is explored).
+// Natively they are real goroutines and a wait with a deadline.
+var (
+	verifWG      sync.WaitGroup
+	verifRunning int64
+)
+
+func verifGo(f func()) {
+	verifWG.Add(1)
+	atomic.AddInt64(&verifRunning, 1)
+	go func() {
+		defer func() {
+			atomic.AddInt64(&verifRunning, -1)
+			verifWG.Done()
+		}()
+		f()
+	}()
+}
+
+// verifRunThreads returns the number of harness goroutines that did not finish.
+func verifRunThreads(maxSteps int) int {
+	done := make(chan struct{})
+	go func() { verifWG.Wait(); close(done) }()
+	select {
+	case <-done:
+		return 0
+	case <-time.After(2 * time.Second):
+		return int(atomic.LoadInt64(&verifRunning))
+	}
+}
+
+// verifCrashed: an unrecovered panic in an interpreted goroutine (natively the process dies instead).
+func verifCrashed() bool { return false }
